@@ -301,8 +301,17 @@ fn eval_hybrid_quantifier(
     child_evaluated: &GraphColoredVertices,
 ) -> GraphColoredVertices {
     match operator {
-        HybridOp::Bind => eval_bind(graph, child_evaluated, variable),
-        HybridOp::Exists => eval_exists(graph, child_evaluated, variable),
+        // the child is only valid inside the (possibly restricted) universe it was evaluated in
+        HybridOp::Bind => eval_bind(
+            graph,
+            &child_evaluated.intersect(graph_to_propagate.unit_colored_vertices()),
+            variable,
+        ),
+        HybridOp::Exists => eval_exists(
+            graph,
+            &child_evaluated.intersect(graph_to_propagate.unit_colored_vertices()),
+            variable,
+        ),
         // evaluate `forall x in A. phi` as `not exists x in A. not phi`
         // do it directly there so that the domain for negations are handled correctly
         HybridOp::Forall => eval_neg(
